@@ -24,6 +24,12 @@ func Main(args []string) int {
 		return runC15(cfg, rest)
 	case "C12":
 		return runC12(cfg, rest)
+	case "C13":
+		return runC13(cfg, rest)
+	case "C18":
+		return runC18(cfg, rest)
+	case "GENSTAT":
+		return runGenStat(cfg, rest)
 	}
 	fmt.Printf("unknown property %q\n", prop)
 	return 2
